@@ -60,6 +60,9 @@ func scenarios(thorough bool) []e3drive.Scenario {
 	} else {
 		add(e3scn.Repro(4, o), 1)
 	}
+	// the asynchronous API with a large host buffer refilled between enqueue and drain (helper threads inside the driver)
+	add(e3scn.AsyncRefill(512*1024, o), 1)
+	add(e3scn.AsyncRefill(512*1024, om), 1)
 	// two GPUs, the far one slow to acknowledge the flush: the blocking D2H after a kernel completes in the
 	// driver's flush-return path (data answered before the last flush acknowledgement)
 	o2 := o
